@@ -13,6 +13,7 @@ from hypothesis import strategies as st
 from vf import harness
 from vf.ceosgen import product
 from vf.props import c07, common
+from vf.runner import SetupViolation
 
 ID = "C09"
 LEVEL = "fault_enumeration"
@@ -56,8 +57,14 @@ def base(level):
     docs = {}
     for image in images:
         p = c07.user_index_path(prod.url, image)
+        if not p.is_file():
+            found = sorted(q.name for q in p.parent.glob("*")) if p.parent.exists() else []
+            raise SetupViolation(harness.disc(
+                "cache-not-at-documented-location", "create_cache=True",
+                f"<user_cache_dir>/xarray-ceos-alos2/<sha256(root)>/{image}.index", found))
         docs[image] = p.read_text()
-        p.unlink()
+    for image in images:
+        c07.user_index_path(prod.url, image).unlink(missing_ok=True)
     return prod, images, ref, docs
 
 
@@ -255,7 +262,12 @@ def run_case(case):
 
 def enum_cases(tier):
     for level in LEVELS:
-        prod, images, ref, docs = base(level)
+        try:
+            prod, images, ref, docs = base(level)
+        except SetupViolation:
+            # reported by run_case of the first case below
+            yield {"kind": "prefix", "level": level, "image": 0, "location": "user", "k": 0}
+            continue
         for i, image in enumerate(images):
             n = len(docs[image])
             for location in ("user", "adjacent"):
@@ -304,7 +316,10 @@ def classify(case):
     if case["kind"] == "prefix":
         labels.append(f"location={case['location']}")
         labels.append(f"through={case.get('through', 'open_alos2')}")
-        _, images, _, docs = base(case["level"])
+        try:
+            _, images, _, docs = base(case["level"])
+        except SetupViolation:
+            return True, labels
         n = len(docs[images[case["image"]]])
         k = case["k"] % (n + 1) if case.get("mod") else min(case["k"], n)
         return 0 < k < n, labels
